@@ -127,7 +127,7 @@ PROPERTIES = {
     "C01": {
         "level": "other",
         "targets": [F("conn.FakeSnowflakeConnection.__init__"), F("cursor.FakeSnowflakeCursor.fetchmany"), F("cursor.FakeSnowflakeCursor.fetchone"), F("cursor.FakeSnowflakeCursor.fetchall"),
-                    F("transforms.float_to_double"), F("transforms.semi_structured_types"), F("transforms.timestamp_ntz")],
+                    F("transforms.float_to_double"), F("transforms.semi_structured_types"), F("transforms.timestamp_ntz"), F("transforms.integer_precision")],
         "also": {"fakesnow.cursor.FakeSnowflakeCursor.fetchmany": [r"C05\.fetchmany"], "fakesnow.cursor.FakeSnowflakeCursor.fetchone": [r"C05\.fetchone"], "fakesnow.cursor.FakeSnowflakeCursor.fetchall": [r"C05\.fetchall"]},
         "bounded": "bounded.C01",
         "trusted_base": [A_DUCK, "A-ARROW: pyarrow to_pylist conversion of DuckDB's arrow result to Python values"],
@@ -151,7 +151,7 @@ PROPERTIES = {
     },
     "C09": {
         "level": "other",
-        "targets": [F("info_schema.insert_table_comment_sql"), F("info_schema.insert_text_lengths_sql"), F("transforms.extract_comment_on_table"), F("transforms.show_schemas"), F("transforms.show_objects_tables"), F("transforms.describe_table"),
+        "targets": [F("info_schema.insert_table_comment_sql"), F("info_schema.insert_text_lengths_sql"), F("transforms.extract_comment_on_table"), F("transforms.information_schema_fs_columns_snowflake"), F("transforms.drop_schema_cascade"), F("transforms.show_schemas"), F("transforms.show_objects_tables"), F("transforms.describe_table"),
                     F("types.describe_as_rowtype.<locals>.as_column_info"), F("cursor.FakeSnowflakeCursor._execute")],
         "also": {"fakesnow.types.describe_as_rowtype.<locals>.as_column_info": [r"C06\.rowtype\."], "fakesnow.cursor.FakeSnowflakeCursor._execute": [r"C09\."],
                  "fakesnow.transforms.describe_table": [r"C03\.describe\."], "fakesnow.transforms.show_schemas": [r"C03\.show_schemas\."], "fakesnow.transforms.show_objects_tables": [r"C03\.show_objects\."]},
@@ -166,6 +166,7 @@ PROPERTIES = {
     "C10": {
         "level": "other",
         "targets": [F("transforms.values_columns"), F("transforms.dateadd_date_cast"), F("transforms.regex_replace"), F("transforms._get_to_number_args"),
+                    F("transforms._to_decimal"), F("transforms.to_date"), F("transforms.to_timestamp"), F("transforms.to_timestamp_ntz"), F("transforms.identifier"), F("transforms.sample"),
                     F("cursor.FakeSnowflakeCursor._transform"), F("cursor.FakeSnowflakeCursor._execute")],
         "also": {"fakesnow.cursor.FakeSnowflakeCursor._transform": [r"C11\.pipeline\.order"]},
         "labelled_only": ["fakesnow.cursor.FakeSnowflakeCursor._execute"],
@@ -179,6 +180,7 @@ PROPERTIES = {
     "C11": {
         "level": "other",
         "targets": [F("transforms.indices_to_json_extract"), F("transforms.json_extract_precedence"), F("transforms.flatten_value_cast_as_varchar"), F("transforms.semi_structured_types"),
+                    F("transforms.array_size"), F("transforms.try_parse_json"), F("transforms.split"), F("transforms.json_extract_cased_as_varchar"),
                     F("cursor.FakeSnowflakeCursor._transform")],
         "also": {"fakesnow.transforms.semi_structured_types": [r"C01\.semi\."]},
         "bounded": "bounded.C11",
